@@ -1,7 +1,36 @@
 (* C09 property theorems: statements + `exact lemma` only. *)
-From CJ Require Import Common.Base C09.Model C09.ProofsB.
+From CJ Require Import Common.Base C09.Model C09.ProofsA C09.ProofsB.
 From Coq Require Import Arith PeanoNat.
 Local Open Scope nat_scope.
+
+(* Whatever the schedule of any number of workers, handlers, reloads and sweeps, and whatever ages the
+   registrations reach: between two announcements of one key to the detector lies its removal. *)
+Theorem C09_announce_at_most_once_per_lifetime : forall split share ths acts,
+  once_per_lifetime (trace (run split share (init ths) acts)).
+Proof. exact announce_once_lemma. Qed.
+Print Assumptions C09_announce_at_most_once_per_lifetime.
+
+(* A connection handler is only ever handed a registration that was validated and announced, and
+   not removed since. *)
+Theorem C09_visible_only_after_validate : forall split share ths acts,
+  seen_after_announce (trace (run split share (init ths) acts)).
+Proof. exact visible_lemma. Qed.
+Print Assumptions C09_visible_only_after_validate.
+
+(* No update is lost: the counter of a tracked registration is the number of ingests of its key
+   since it was (re-)tracked. *)
+Theorem C09_no_lost_regcount : forall split share ths acts k,
+  let c := run split share (init ths) acts in
+  tracks_since k (trace c) = match decoys c k with Some o => o_regcount (objs c o) | None => 0 end.
+Proof. exact regcount_lemma. Qed.
+Print Assumptions C09_no_lost_regcount.
+
+(* With one sweeper (as the station runs it) the removal step never dereferences a missing record. *)
+Theorem C09_no_panic_in_sweep : forall split share ths acts,
+  one_sweeper (fun i => nth i ths TNone) -> (forall t, sweeper_idle (nth t ths TNone) = true) ->
+  panicked (run split share (init ths) acts) = false.
+Proof. exact no_panic_lemma. Qed.
+Print Assumptions C09_no_panic_in_sweep.
 
 (* Overload: excess registrations are dropped and counted; the receiver never waits for a worker. *)
 Theorem C09_distributor_never_blocks : forall nw cap work p,
